@@ -1117,7 +1117,11 @@ pub fn replay(rep: &mut Report, v: &serde_json::Value) {
             match std::process::Command::new(&exe).env("VERIF_C14_DEEP", format!("{kind}:{d}")).arg("C14").output() {
                 Ok(o) => {
                     let text = String::from_utf8_lossy(&o.stdout).trim().to_string();
-                    if o.status.success() && (text == want || text.starts_with("err ")) {
+                    // up to 100 levels an expression has its value: the nesting limit must not reach
+                    // down into what people write
+                    if o.status.success() && text.starts_with("err ") && d <= 100 {
+                        rep.violation(Violation { kind: "oracle", stream: "replay".into(), signature: format!("C14:shallow-rejected:{kind}"), what: format!("expression nested only {d} deep ({kind}) is rejected: {text}"), replay: json!({"input": deep_input(&kind, d), "generator": {"nesting": kind, "depth": d}, "kind": "deep", "expect": {"value": &want[3..]}}), confirmed_on_impl: true });
+                    } else if o.status.success() && (text == want || text.starts_with("err ")) {
                         st.exact += 1;
                     } else {
                         rep.violation(Violation { kind: "oracle", stream: "replay".into(), signature: format!("C14:deep-nesting:{kind}"), what: format!("expression nested {d} deep ({kind}): status {:?}, output {text:?}, stderr {:?}", o.status, String::from_utf8_lossy(&o.stderr).lines().last().unwrap_or("")), replay: r.clone(), confirmed_on_impl: true });
@@ -1227,10 +1231,10 @@ fn deep_stream(rep: &mut Report, thorough: bool) {
     let mut st = Stream::new(
         "oracle/deep",
         "oracle",
-        "regular expressions nested d levels deep — d opening parentheses, d unary minus signs, d nested abs( — for d = 50 … 3000 (thorough: … 100000), each evaluated in a child process; the value must be 1 (an even number of minus signs) or -1, or the transform may fail, but the process must not crash; non-trivial = every case",
+        "regular expressions nested d levels deep — d opening parentheses, d unary minus signs, d nested abs( — for d = 50 … 30000 (thorough: … 100000), each evaluated in a child process; the value must be 1 (an even number of minus signs) or -1 — up to d = 100 it must be the value — or the transform may fail, but the process must not crash; non-trivial = every case",
     );
     let exe = match std::env::current_exe() { Ok(e) => e, Err(_) => { rep.notes.push("deep stream: cannot find own executable".into()); return; } };
-    let depths: Vec<usize> = if thorough { vec![50, 200, 600, 1000, 3000, 10_000, 100_000] } else { vec![50, 200, 600, 1000, 3000] };
+    let depths: Vec<usize> = if thorough { vec![50, 100, 101, 200, 600, 1000, 3000, 10_000, 30_000, 100_000] } else { vec![50, 100, 101, 200, 600, 1000, 3000, 30_000] };
     for kind in ["parens", "minus", "call"] {
         for &d in &depths {
             let key = format!("{kind}:{d}");
@@ -1242,7 +1246,11 @@ fn deep_stream(rep: &mut Report, thorough: bool) {
                 Err(e) => rep.notes.push(format!("deep stream: cannot run child: {e}")),
                 Ok(o) => {
                     let text = String::from_utf8_lossy(&o.stdout).trim().to_string();
-                    if o.status.success() && (text == want || text.starts_with("err ")) {
+                    // up to 100 levels an expression has its value: the nesting limit must not reach
+                    // down into what people write
+                    if o.status.success() && text.starts_with("err ") && d <= 100 {
+                        rep.violation(Violation { kind: "oracle", stream: st.name.clone(), signature: format!("C14:shallow-rejected:{kind}"), what: format!("expression nested only {d} deep ({kind}) is rejected: {text}"), replay: json!({"input": deep_input(kind, d), "generator": {"nesting": kind, "depth": d}, "kind": "deep", "expect": {"value": &want[3..]}}), confirmed_on_impl: true });
+                    } else if o.status.success() && (text == want || text.starts_with("err ")) {
                         if text == want { st.exact += 1; } else { st.errors_agreed += 1; st.tally(&format!("{kind}:{d} -> {text}")); }
                     } else {
                         let err = String::from_utf8_lossy(&o.stderr);
@@ -1259,6 +1267,61 @@ fn deep_stream(rep: &mut Report, thorough: bool) {
     rep.streams.push(st);
 }
 
+/// The nesting limit, at its edge: expressions built from runs of `(`, unary `-`, `abs(` / `max(`
+/// calls and variables whose values nest again, with a total nesting of 85 … 115 levels. The outcome
+/// (value or DepthLimitExceeded, and which) must be the model's: the limit is part of the language now.
+fn nesting_stream(rep: &mut Report, drv: &mut Driver, rng: &mut Rng, n: usize) -> Result<(), String> {
+    let mut st = Stream::new(
+        "expr/nesting-limit",
+        "correspondence",
+        "expressions nesting 85 - 115 levels through random runs of parentheses, unary minus signs, abs( / max( calls, binary operators between groups and up to three variables whose values nest further (each variable costs a level): eval_attr of the implementation vs the Lean model, value and error kind; non-trivial = every case",
+    );
+    for _ in 0..n {
+        let total = 85 + rng.below(31);
+        let nvars = rng.below(4);
+        // split the total over the pieces: the expression itself and the values of the variables
+        let mut parts = vec![0usize; nvars + 1];
+        for _ in 0..total { let i = rng.below(nvars + 1); parts[i] += 1; }
+        let mut vars: Vec<(String, String)> = vec![];
+        let mut inner = String::from("1");
+        // innermost value first; variable k's value refers to variable k+1
+        for k in (0..=nvars).rev() {
+            let mut open = String::new();
+            let mut close = String::new();
+            let mut left = parts[k];
+            while left > 0 {
+                match rng.below(5) {
+                    0 => { open.push('-'); left -= 1; }
+                    1 => { open.push_str("abs("); close.insert(0, ')'); left -= 1; }
+                    2 => { open.push_str("max(0, "); close.insert(0, ')'); left -= 1; }
+                    3 => { open.push_str("(2 * "); close.insert_str(0, " - 1)"); left -= 1; }
+                    _ => { open.push('('); close.insert(0, ')'); left -= 1; }
+                }
+                if rng.chance(1, 6) { open.push(' '); }
+            }
+            let body = format!("{open}{inner}{close}");
+            if k == 0 {
+                inner = body;
+            } else {
+                vars.push((format!("v{k}"), body));
+                inner = format!("$v{k}");
+            }
+        }
+        let value = format!("{{{{{inner}}}}}");
+        st.case(&value, true, || json!({"value": value, "vars": vars, "levels": parts}));
+        st.tally(&format!("levels={}", if total < 100 - nvars { "below" } else if total > 100 { "above" } else { "edge" }));
+        st.tally(&format!("variables={nvars}"));
+        let imp = impl_eval_attr(&vars, 0, &value);
+        let mdl = model_eval_attr(drv, &vars, 0, &value)?;
+        match &imp { Out::Ok(..) => st.tally("impl=value"), Out::Err(e) => st.tally(&format!("impl=err:{e}")), Out::Panic(_) => st.tally("impl=panic") }
+        if let Some((sig, what)) = compare(&mut st, &imp, &mdl, false) {
+            rep.violation(Violation { kind: "correspondence", stream: st.name.clone(), signature: format!("nesting:{sig}"), what, replay: json!({"value": value, "vars": vars}), confirmed_on_impl: false });
+        }
+    }
+    rep.streams.push(st);
+    Ok(())
+}
+
 pub fn run(rep: &mut Report, tier: &str, seed: u64) -> Result<(), String> {
     if let Ok(spec) = std::env::var("VERIF_C14_DEEP") {
         deep_child(&spec);
@@ -1272,6 +1335,7 @@ pub fn run(rep: &mut Report, tier: &str, seed: u64) -> Result<(), String> {
     soup_stream(rep, &mut drv, &mut rng.fork(), if thorough { 600_000 } else { 20_000 })?;
     entry_stream(rep, &mut drv, &mut rng.fork(), if thorough { 300_000 } else { 9_000 })?;
     doc_stream(rep, &mut rng.fork(), if thorough { 40_000 } else { 1_500 })?;
+    nesting_stream(rep, &mut drv, &mut rng.fork(), if thorough { 60_000 } else { 2_000 })?;
     deep_stream(rep, thorough);
     Ok(())
 }
